@@ -265,7 +265,7 @@ func (x *Exec) symValue(st *State, t types.Type, name string) Value {
 		st.store[c] = &SymArr{elem: u.Elem(), name: sanitize(name)}
 		ln := freshVar(name+"$len", SInt)
 		st.axiom(mkLe(mkInt(0), ln))
-		return &SliceV{cell: c, off: mkInt(0), len: ln, cap: ln, elem: u.Elem()}
+		return &SliceV{cell: c, off: mkInt(0), len: ln, cap: ln, elem: u.Elem(), named: t}
 	case *types.Interface:
 		return &Opaque{typ: t, tag: name}
 	case *types.Map:
@@ -365,29 +365,32 @@ func (x *Exec) storeTo(st *State, p *Ptr, nv Value) {
 }
 
 // symbolic arrays: element at symbolic index; leaves are UF selects.
-func (x *Exec) symArrElem(sa *SymArr, idx *Term) Value {
-	return x.symLeaf(sa.elem, sa.name, idx)
+func (x *Exec) symArrElem(st *State, sa *SymArr, idx *Term) Value {
+	if et, ok := x.zeroArrays[sa.name]; ok {
+		return zeroValue(et)
+	}
+	return x.symLeaf(st, sa.elem, sa.name, idx)
 }
 
-func (x *Exec) symLeaf(t types.Type, name string, idx *Term) Value {
+func (x *Exec) symLeaf(st *State, t types.Type, name string, idx *Term) Value {
 	if d := isSDFIface(t); d != 0 {
 		fail("symbolic array of shapes needs element abstraction (use concrete operand count)")
 	}
 	switch u := t.Underlying().(type) {
 	case *types.Basic:
 		if s, ok := sortOf(t); ok {
-			return mkApp("sel_"+name, s, idx)
+			return x.ufApp(st, "sel_"+name, s, []*Term{idx})
 		}
 	case *types.Struct:
 		el := make([]Value, u.NumFields())
 		for i := range el {
-			el[i] = x.symLeaf(u.Field(i).Type(), name+"."+u.Field(i).Name(), idx)
+			el[i] = x.symLeaf(st, u.Field(i).Type(), name+"."+u.Field(i).Name(), idx)
 		}
 		return &Tuple{typ: t, el: el}
 	case *types.Array:
 		el := make([]Value, u.Len())
 		for i := range el {
-			el[i] = x.symLeaf(u.Elem(), fmt.Sprintf("%s.%d", name, i), idx)
+			el[i] = x.symLeaf(st, u.Elem(), fmt.Sprintf("%s.%d", name, i), idx)
 		}
 		return &Tuple{typ: t, el: el}
 	}
@@ -399,7 +402,7 @@ func (x *Exec) symArrLoad(st *State, sa *SymArr, p *Ptr) Value {
 	if p.sym == nil {
 		fail("symbolic array access without index")
 	}
-	v := x.symArrElem(sa, p.sym)
+	v := x.symArrElem(st, sa, p.sym)
 	for i := 0; i < len(sa.writes); i++ {
 		w := sa.writes[i]
 		nv, ok := iteValue(mkEq(w.idx, p.sym), w.val, v)
@@ -682,6 +685,42 @@ func congruenceAxioms(apps []appRec) []*Term {
 				}
 				out = append(out, mkImplies(mkAnd(eqs...), mkEq(l[i].res, l[j].res)))
 			}
+		}
+	}
+	return out
+}
+
+// theoryAxioms: pairwise facts about the uninterpreted exp / log
+// applications: strict monotonicity and log(exp t) = t in its order form.
+func theoryAxioms(apps []appRec) []*Term {
+	var out []*Term
+	var exps, logs []appRec
+	for _, a := range apps {
+		switch a.fn {
+		case "exp":
+			exps = append(exps, a)
+		case "log":
+			logs = append(logs, a)
+		}
+	}
+	zero := mkRealInt(0)
+	for i := 0; i < len(exps); i++ {
+		for j := i + 1; j < len(exps); j++ {
+			out = append(out, mkEq(mkLt(exps[i].args[0], exps[j].args[0]), mkLt(exps[i].res, exps[j].res)))
+		}
+	}
+	for i := 0; i < len(logs); i++ {
+		for j := i + 1; j < len(logs); j++ {
+			pos := mkAnd(mkLt(zero, logs[i].args[0]), mkLt(zero, logs[j].args[0]))
+			out = append(out, mkImplies(pos, mkEq(mkLt(logs[i].args[0], logs[j].args[0]), mkLt(logs[i].res, logs[j].res))))
+		}
+	}
+	for _, l := range logs {
+		for _, ex := range exps {
+			// log(s) compared with t = log(exp(t)) through s compared with exp(t)
+			out = append(out, mkImplies(mkLt(zero, l.args[0]), mkAnd(
+				mkEq(mkLt(l.args[0], ex.res), mkLt(l.res, ex.args[0])),
+				mkEq(mkEq(l.args[0], ex.res), mkEq(l.res, ex.args[0])))))
 		}
 	}
 	return out
@@ -1080,6 +1119,11 @@ func resultValue(t types.Type, vals []Value) Value {
 func retype(v Value, t types.Type) Value {
 	if tp, ok := v.(*Tuple); ok {
 		return &Tuple{typ: t, el: tp.el}
+	}
+	if sv, ok := v.(*SliceV); ok {
+		n := *sv
+		n.named = t
+		return &n
 	}
 	return v
 }
